@@ -2,3 +2,4 @@
 pub mod faults;
 pub mod faults_container;
 pub mod faults_struct;
+pub mod layout_c04;
